@@ -66,6 +66,9 @@ type c05Vec struct {
 	Shape string   `json:"shape"`
 	Tree  *c05Tree `json:"tree"`
 	Marks []int    `json:"marks"`
+	// spell: a non-finite spelling (or a string that is nearly one) in one numeric context
+	Ctx string  `json:"ctx"` // bin | un | inc
+	Num *c05Val `json:"num"` // what the spelling denotes
 	// site / usite: one expression evaluated once per element of a sequence
 	Side  int      `json:"side"`
 	Cells []c05Res `json:"cells"`
@@ -138,6 +141,13 @@ func c05Rat(v *c05Val) *big.Rat {
 	return r.Quo(r, new(big.Rat).SetInt(p))
 }
 
+func c05sign(neg bool) int {
+	if neg {
+		return -1
+	}
+	return 1
+}
+
 func c05abs(x int64) int64 {
 	if x < 0 {
 		return -x
@@ -147,6 +157,12 @@ func c05abs(x int64) int64 {
 
 // c05Nearest is the double nearest to the exact value of a model number.
 func c05Nearest(v *c05Val) float64 {
+	switch v.K {
+	case "inf":
+		return math.Inf(c05sign(v.Neg))
+	case "nan":
+		return math.NaN()
+	}
 	if v.K == "num" && v.N == 0 {
 		if v.NZ {
 			return math.Copysign(0, -1)
@@ -171,7 +187,7 @@ func c05Concrete(v *c05Val) c05GV {
 			f = math.Copysign(0, -1)
 		}
 		return c05GV{Kind: "num", F: f}
-	case "sum":
+	case "sum", "inf", "nan":
 		return c05GV{Kind: "num", F: c05Nearest(v)}
 	case "str", "regex":
 		return c05GV{Kind: v.K, S: symsToBytes(v.S)}
@@ -196,8 +212,45 @@ func c05Fmt(f float64) string { return strconv.FormatFloat(f, 'f', -1, 64) }
 
 var c05NumRe = regexp.MustCompile(`^[+-]?([0-9]+\.?[0-9]*|\.[0-9]+)([eE][+-]?[0-9]+)?$`)
 
-// c05ParseNum: the double a numeric string denotes (decimal grammar only).
+// c05Outside marks "a numeric string whose value is outside the model" (never compared); it is a
+// NaN with a payload of its own so that it cannot be mistaken for the NaN the string "nan" denotes.
+var c05Outside = math.Float64frombits(0x7ff8_0000_0bad_0001)
+
+func c05IsOutside(f float64) bool { return math.Float64bits(f) == math.Float64bits(c05Outside) }
+func c05NonFinite(f float64) bool { return math.IsNaN(f) || math.IsInf(f, 0) }
+
+// c05ParseSpecial: the non-finite spellings (JqValue.ParseSpecial): [sign] inf, [sign] infinity,
+// nan (no sign), in any letter case.
+func c05ParseSpecial(s []byte) (float64, bool) {
+	caseless := func(b []byte, word string) bool {
+		if len(b) != len(word) {
+			return false
+		}
+		for i := range b {
+			if b[i] != word[i] && b[i] != word[i]-'a'+'A' {
+				return false
+			}
+		}
+		return true
+	}
+	body, neg := s, false
+	if len(s) > 0 && (s[0] == '+' || s[0] == '-') {
+		body, neg = s[1:], s[0] == '-'
+	}
+	switch {
+	case caseless(body, "inf") || caseless(body, "infinity"):
+		return math.Inf(c05sign(neg)), true
+	case caseless(s, "nan"):
+		return math.NaN(), true
+	}
+	return 0, false
+}
+
+// c05ParseNum: the double a numeric string denotes (decimal grammar and the non-finite spellings).
 func c05ParseNum(s []byte) (float64, bool) {
+	if f, ok := c05ParseSpecial(s); ok {
+		return f, true
+	}
 	if !c05NumRe.Match(s) {
 		return 0, false
 	}
@@ -213,8 +266,8 @@ func c05ParseNum(s []byte) (float64, bool) {
 		exp -= len(t) - i - 1
 		t = t[:i] + t[i+1:]
 	}
-	if exp > 5000 || exp < -5000 { // far outside the doubles: outside the model (NaN = "not compared")
-		return math.NaN(), true
+	if exp > 5000 || exp < -5000 { // far outside the doubles: outside the model ("not compared")
+		return c05Outside, true
 	}
 	m, ok := new(big.Int).SetString(t, 10)
 	if !ok {
@@ -234,6 +287,9 @@ func c05ParseNum(s []byte) (float64, bool) {
 		r.Quo(r, p)
 	}
 	f, _ := r.Float64()
+	if math.IsInf(f, 0) { // a decimal beyond the largest double: outside the model
+		return c05Outside, true
+	}
 	if neg {
 		f = -f
 	}
@@ -283,10 +339,11 @@ func c05StrOf(v c05GV) []byte {
 
 // c05Out: the outcome the table prescribes.
 type c05Out struct {
-	Err  bool  // runtime error
-	Open bool  // not fixed by the statement: not compared
-	Any  bool  // (deviation only) any value or a runtime error
-	V    c05GV // num | str | bool
+	Err    bool  // runtime error
+	AnyVal bool  // a value, NOT a runtime error; which value is not fixed by the statement (JqValue.OkOpen)
+	Open   bool  // not fixed by the statement: not compared
+	Any    bool  // (deviation only) any value or a runtime error
+	V      c05GV // num | str | bool
 }
 
 func c05B(b bool) c05Out    { return c05Out{V: c05GV{Kind: "bool", B: b}} }
@@ -303,8 +360,31 @@ func c05signedZero(neg bool) float64 {
 
 // c05Arith: one IEEE operation = the double nearest to the exact result.
 func c05Arith(op string, x, y float64) c05Out {
-	if math.IsNaN(x) || math.IsNaN(y) || math.IsInf(x, 0) || math.IsInf(y, 0) { // a numeric string outside the doubles
+	if c05IsOutside(x) || c05IsOutside(y) { // a numeric string outside the doubles
 		return c05Out{Open: true}
+	}
+	if c05NonFinite(x) || c05NonFinite(y) { // num() of inf / infinity / nan: IEEE (JqValue.Add Mul Div RemOf)
+		switch op {
+		case "+":
+			return c05N(x + y)
+		case "-":
+			return c05N(x - y)
+		case "*":
+			return c05N(x * y)
+		case "/":
+			if y == 0 {
+				return c05Out{Err: true}
+			}
+			return c05N(x / y)
+		}
+		tx, ty := math.Trunc(x), math.Trunc(y)
+		switch {
+		case ty == 0:
+			return c05Out{Err: true}
+		case !c05NonFinite(tx) && math.IsInf(ty, 0): // a finite dividend is its own remainder
+			return c05N(tx + 0)
+		}
+		return c05Out{AnyVal: true}
 	}
 	var exact *big.Rat
 	var native float64
@@ -358,7 +438,9 @@ func c05Arith(op string, x, y float64) c05Out {
 	return c05N(f)
 }
 
-func c05Beyond63(f float64) bool { return math.Abs(math.Trunc(f)) >= 9223372036854775808.0 }
+func c05Beyond63(f float64) bool {
+	return !c05NonFinite(f) && math.Abs(math.Trunc(f)) >= 9223372036854775808.0
+}
 
 func c05Bin(op string, l, r c05GV) c05Out {
 	switch op {
@@ -391,8 +473,11 @@ func c05Bin(op string, l, r c05GV) c05Out {
 			c = bytes.Compare(l.S, r.S)
 		default:
 			x, y := c05NumOf(l), c05NumOf(r)
-			if math.IsNaN(x) || math.IsNaN(y) || math.IsInf(x, 0) || math.IsInf(y, 0) {
+			if c05IsOutside(x) || c05IsOutside(y) {
 				return c05Out{Open: true}
+			}
+			if math.IsNaN(x) || math.IsNaN(y) { // NaN is not ordered
+				return c05Out{AnyVal: true}
 			}
 			if x < y {
 				c = -1
@@ -447,7 +532,7 @@ func c05Un(op string, v c05GV) c05Out {
 		return c05B(!c05Truthy(v))
 	case "+", "-":
 		x := c05NumOf(v)
-		if math.IsNaN(x) || math.IsInf(x, 0) {
+		if c05IsOutside(x) {
 			return c05Out{Open: true}
 		}
 		if op == "-" {
@@ -483,6 +568,10 @@ func c05FromModel(r c05Res) c05Out {
 	switch r.V.K {
 	case "unfixed":
 		return c05Out{Open: true}
+	case "okopen":
+		return c05Out{AnyVal: true}
+	case "inf", "nan":
+		return c05N(c05Nearest(r.V))
 	case "any":
 		return c05Out{Any: true}
 	case "num", "sum":
@@ -492,10 +581,10 @@ func c05FromModel(r c05Res) c05Out {
 }
 
 func c05SameOut(a, b c05Out) bool {
-	if a.Err != b.Err || a.Open != b.Open || a.Any != b.Any {
+	if a.Err != b.Err || a.Open != b.Open || a.Any != b.Any || a.AnyVal != b.AnyVal {
 		return false
 	}
-	if a.Err || a.Open || a.Any {
+	if a.Err || a.Open || a.Any || a.AnyVal {
 		return true
 	}
 	return c05Text(a.V) == c05Text(b.V) && a.V.Kind == b.V.Kind
@@ -658,10 +747,11 @@ type c05Case struct {
 	Desc  string   `json:"desc"`
 	Prog  string   `json:"prog"`
 	Doc   string   `json:"doc,omitempty"`
-	Want  string   `json:"want"`           // expected stdout when the outcome is a value
-	WantE string   `json:"want_e"`         // expected stdout before a runtime error
-	Err   bool     `json:"err"`            // expected outcome: runtime error
-	Devs  []c05Alt `json:"devs,omitempty"` // outcomes a named open finding predicts instead
+	Want  string   `json:"want"`                // expected stdout when the outcome is a value
+	WantE string   `json:"want_e"`              // expected stdout before a runtime error
+	Err   bool     `json:"err"`                 // expected outcome: runtime error
+	AnyV  bool     `json:"any_value,omitempty"` // expected outcome: a value (no runtime error); which one is not fixed
+	Devs  []c05Alt `json:"devs,omitempty"`      // outcomes a named open finding predicts instead
 	Key   string   `json:"key"`
 	NT    bool     `json:"nt"`
 	Seed  bool     `json:"seeded,omitempty"`
@@ -747,9 +837,12 @@ func c05BinProg(op string, l, r c05GV, mode string) (prog, doc, marks string, ok
 func c05MkCase(desc, prog, doc, marks string, exp c05Out) c05Case {
 	cs := c05Case{Desc: desc, Prog: prog, Doc: doc, Key: prog + "\x00" + doc}
 	cs.WantE = marks
-	if exp.Err {
+	switch {
+	case exp.Err:
 		cs.Err = true
-	} else {
+	case exp.AnyVal:
+		cs.AnyV = true
+	default:
 		cs.Want = marks + c05Text(exp.V) + "\n"
 	}
 	return cs
@@ -805,7 +898,25 @@ func c05RandDigits(rng *rand.Rand, min, max int) string {
 	return sb.String()
 }
 
+// c05RandCase writes a word in a random mixture of letter cases.
+func c05RandCase(rng *rand.Rand, word string) string {
+	b := []byte(word)
+	style := rng.Intn(4) // lower, upper, capitalised, mixed
+	for i := range b {
+		if style == 1 || (style == 2 && i == 0) || (style == 3 && rng.Intn(2) == 0) {
+			b[i] = b[i] - 'a' + 'A'
+		}
+	}
+	return string(b)
+}
+
 func c05RandNumericStr(rng *rand.Rand) string {
+	if rng.Intn(8) == 0 { // the non-finite spellings
+		if rng.Intn(3) == 0 {
+			return c05RandCase(rng, "nan")
+		}
+		return []string{"", "", "-", "+"}[rng.Intn(4)] + c05RandCase(rng, []string{"inf", "infinity"}[rng.Intn(2)])
+	}
 	s := []string{"", "", "-", "+"}[rng.Intn(4)]
 	switch rng.Intn(4) {
 	case 0:
@@ -835,7 +946,20 @@ func c05RandNonNumericStr(rng *rand.Rand) string {
 		}
 		return sb.String()
 	}
-	switch rng.Intn(10) {
+	switch rng.Intn(11) {
+	case 10: // nearly a non-finite spelling
+		w := c05RandCase(rng, []string{"inf", "infinity", "nan"}[rng.Intn(3)])
+		switch rng.Intn(5) {
+		case 0:
+			return w[:len(w)-1]
+		case 1:
+			return w + string(w[len(w)-1])
+		case 2:
+			return []string{"+", "-"}[rng.Intn(2)] + c05RandCase(rng, "nan")
+		case 3:
+			return []string{" ", "+ ", "--", "."}[rng.Intn(4)] + w
+		}
+		return w + []string{" ", "1", "e1", ".0", "-"}[rng.Intn(5)]
 	case 0:
 		return ""
 	case 1:
@@ -923,11 +1047,12 @@ func c05Is(v c05GV, name string) c05Out {
 // evaluation of each operand observable.
 func checkC05(c *Ctx) {
 	c.Assume("`!=`, `<=`, `>=` with an unset operand are not fixed by the statement: not compared")
-	c.Assume("non-finite results (overflow of * / + -) are not compared; no operand is NaN or infinite")
+	c.Assume("non-finite results by overflow of * / + - on finite operands are not compared")
+	c.Assume("NaN (the value of the numeric string nan) is not ordered: a comparison that goes through num() with NaN on one side must give a value (no runtime error), which one is not compared; likewise x % y with an infinite or NaN x, or a NaN y (a finite x is its own remainder by an infinite y); an error exactly when the truncated divisor is zero")
 	c.Assume("`is` applied to a built-in function with one of the nine documented type names is not compared; with any other identifier it must give false like for every other operand")
 	c.Assume("error messages and positions are not compared, only the outcome kind (value printed / runtime error)")
 	c.Assume("the RE2 engine is outside the model: the specification gives each of its 13 patterns a hand-written meaning (cross-checked against Go's regexp by the harness); seeded patterns use Go's regexp as the reference")
-	c.Assume("numeric strings: the decimal grammar [sign] digits [. digits] [e [sign] digits]; Go's hex, inf/nan and underscore spellings and out-of-range magnitudes are outside the model")
+	c.Assume("numeric strings: the decimal grammar [sign] digits [. digits] [e [sign] digits] and the non-finite spellings [sign] inf, [sign] infinity, nan in any letter case (values: IEEE infinities and NaN, printed +Inf -Inf NaN); Go's hex and underscore spellings and out-of-range magnitudes are outside the model")
 	c.Assume("negative number literals are written (0 - x) and -0 as (- 0) so that the check does not depend on how a leading minus is lexed (C13)")
 	c.Assume("the number print format (strconv 'f', -1) is taken from DESIGN.md 3.1; values of a function/regex/unset passed through `return` are assumed to keep their kind (marker mode)")
 	c.Assume("composed expressions: where the result of an inner operator is outside the model's exact arithmetic (a quotient that is not a dyadic rational, |mantissa| >= 2^6, a number text longer than its exact expansion, a computed string with more than 8 digits or an exponent) or is itself not fixed, the expression is not compared in the model's families; the seeded trees are computed by the Go port of the tables (one IEEE rounding per operator)")
@@ -959,6 +1084,10 @@ func checkC05(c *Ctx) {
 			}
 			if isErr {
 				return r.Class == "runtime" && string(r.Stdout) == wantE
+			}
+			if cs.AnyV { // the markers, then exactly one printed line
+				rest := strings.TrimPrefix(string(r.Stdout), wantE)
+				return r.Class == "ok" && strings.HasPrefix(string(r.Stdout), wantE) && strings.Count(rest, "\n") == 1 && strings.HasSuffix(rest, "\n")
 			}
 			return r.Class == "ok" && string(r.Stdout) == want
 		}
@@ -1027,6 +1156,7 @@ func checkC05(c *Ctx) {
 	// ---- (1) every cell of the model
 	portChecked := 0
 	nestNo := 0
+	spellNo := 0
 	var siteVecs []c05Vec
 	uVals := map[int]*c05GV{}        // the operand universe by index (from the cells), for the site vectors
 	siteCells := map[string]c05Out{} // "op li ri" -> outcome of the ~ / !~ cell
@@ -1045,6 +1175,18 @@ func checkC05(c *Ctx) {
 		if v.L != nil {
 			l = c05Concrete(v.L)
 		}
+		spell := v.Fam == "spell"
+		if spell { // a spelling in one context: replayed like the cell of that context
+			sv := l
+			if v.Ctx == "bin" && v.Side == 2 {
+				sv = c05Concrete(v.R)
+			}
+			if sv.Kind != "str" || !c05SameOut(c05N(c05NumOf(sv)), c05N(c05Nearest(v.Num))) {
+				infra("C05: the Go port reads %q as %v, the specification as %+v", sv.S, c05NumOf(sv), *v.Num)
+			}
+			spellNo++
+			v.Fam = v.Ctx
+		}
 		switch v.Fam {
 		case "bin", "match":
 			r := c05Concrete(v.R)
@@ -1059,10 +1201,13 @@ func checkC05(c *Ctx) {
 				return
 			}
 			modes := []string{"lit", "var", "doc", "mark", "lv", "vl"}
-			if v.Fam == "bin" {
+			if spell { // (a big family: the renderings take turns; the document field every time)
+				modes = []string{"doc", []string{"lit", "var", "mark", "lv", "vl"}[spellNo%5]}
+			}
+			if v.Fam == "bin" && !spell {
 				uVals[v.Li], uVals[v.Ri] = &l, &r
 			}
-			if v.Li == v.Ri {
+			if v.Li == v.Ri && !spell {
 				modes = append(modes, "same")
 			}
 			if l.Kind == "null" || r.Kind == "null" {
@@ -1156,11 +1301,19 @@ func checkC05(c *Ctx) {
 		}
 	}
 	nestN, stride := 5, []int{41, 43, 47, 53, 59, 61, 67}[int(uint64(c.Seed)%7)]
+	// the letter-case patterns of the non-finite spellings: all lower, all upper, capitalised and two seeded ones;
+	// thorough: all 256
+	mrng := rand.New(rand.NewSource(c.Seed ^ 0x5be11))
+	masks := []string{"0", "255", "1", strconv.Itoa(2 + mrng.Intn(253)), strconv.Itoa(2 + mrng.Intn(253))}
 	if c.Thorough() {
 		nestN = 9
+		masks = nil
+		for m := 0; m < 256; m++ {
+			masks = append(masks, strconv.Itoa(m))
+		}
 	}
 	res := c.TLC(TLCOpt{Module: "MC_Ops",
-		Cfg: cfgText("INIT Init", "NEXT Next", "CONSTANTS", `Fams = {"bin", "match", "un", "inc", "is", "nest", "site", "usite"}`,
+		Cfg: cfgText("INIT Init", "NEXT Next", "CONSTANTS", `Fams = {"bin", "match", "un", "inc", "is", "nest", "site", "usite", "spell"}`, "SpellMasks = {"+strings.Join(masks, ", ")+"}",
 			fmt.Sprintf("NestN = %d", nestN), fmt.Sprintf("SiteShift = %d", uint64(c.Seed)%1000), fmt.Sprintf("SiteStride = %d", stride),
 			"INVARIANT Laws", "INVARIANT Vec", "CHECK_DEADLOCK FALSE"),
 		Workers: 8, Heap: "6g", OnVec: onVec})
@@ -1324,7 +1477,7 @@ func checkC05(c *Ctx) {
 				default:
 					o = c05Bin(op, e, e)
 				}
-				okSeq = okSeq && !o.Open
+				okSeq = okSeq && !o.Open && !o.AnyVal
 				outs = append(outs, o)
 				if o.Err {
 					elems = elems[:q+1]
@@ -1492,7 +1645,7 @@ func checkC05(c *Ctx) {
 	}
 
 	c.Set("exhaustive", true)
-	c.Set("rule", "TLC enumerates every binary operator x every ordered pair of a 37-value universe (13 numbers incl. -0, 2^53, 2^70, 2^-20; 13 strings; "+
+	c.Set("rule", "TLC enumerates every binary operator x every ordered pair of a 40-value universe (13 numbers incl. -0, 2^53, 2^70, 2^-20; 16 strings incl. the non-finite numeric strings inf, -Infinity, NaN; "+
 		"both booleans, null, unset, [] [1] {} {a:1}, two regexes, a function), ~ and !~ additionally against 13 patterns as strings and regex literals, "+
 		"every unary operator, ++/-- prefix and postfix, `is` with every type name and 27 identifiers that are not type names (internal tag names, other languages' names, other letter case) on every operand kind and on built-in functions; each cell is replayed with the operands as literals, variables, "+
 		"document fields, one shared variable (diagonal) and behind marker functions; a null operand additionally as a missing numeric member (index past the end of a document / variable array, absent numeric key of an object); "+
@@ -1501,7 +1654,10 @@ func checkC05(c *Ctx) {
 		fmt.Sprintf("every binary operator over every binary operator (both shapes) over every triple of a %d-value universe, leaves as literals / variables / document fields / marker functions (evaluation order and short circuit at depth); ", nestN)+
 		"REPEATED SITES of every operator: per binary operator x fixed operand x side (and the same variable on both sides) and per unary operator, one source-level expression evaluated once per operand of the universe in one run "+
 		"(order: a seed-chosen rotation, values first, one runtime-error cell last), the changing operand reaching it as a for-in variable over a literal array, an array of the document, object values (second variable), object keys, "+
-		"the characters of a string, the index variable, a parameter, a reassigned variable, an indexed member; a case is non-trivial unless both operands are small positive integers; distinct by program + document")
+		"the characters of a string, the index variable, a parameter, a reassigned variable, an indexed member; "+
+		fmt.Sprintf("NON-FINITE SPELLINGS: every [sign] inf / infinity / nan in %d letter-case patterns (thorough: all 256) and 30 strings that are nearly one, each in every numeric context ", len(masks))+
+		"(every arithmetic and comparison operator x either side x 6 partners of different kinds, the unary operators, ++ and -- prefix and postfix), operands as document fields and as literals / variables / behind marker functions; "+
+		"a case is non-trivial unless both operands are small positive integers; distinct by program + document")
 	c.Set("checker_cmd", "tlc MC_Ops (INVARIANT Laws, Vec); replay through lang.EvalProgram in worker subprocesses")
 	c.Set("cells", counts)
 	c.Set("port_cells_checked_against_spec", portChecked)
@@ -1638,12 +1794,18 @@ func c05EvalTree(t *c05Tree) (out c05Out, marks []int) {
 		return c05Out{V: *t.G}, []int{t.ID}
 	case "un":
 		a, m := c05EvalTree(t.E)
+		if a.AnyVal {
+			a = c05Out{Open: true}
+		}
 		if a.Err || a.Open {
 			return a, m
 		}
 		return c05Un(t.Op, a.V), m
 	}
 	a, m := c05EvalTree(t.L)
+	if a.AnyVal {
+		a = c05Out{Open: true}
+	}
 	if a.Err || a.Open {
 		return a, m
 	}
@@ -1652,6 +1814,9 @@ func c05EvalTree(t *c05Tree) (out c05Out, marks []int) {
 	}
 	b, m2 := c05EvalTree(t.R)
 	m = append(append([]int{}, m...), m2...)
+	if b.AnyVal {
+		b = c05Out{Open: true}
+	}
 	if b.Err || b.Open {
 		return b, m
 	}
